@@ -199,11 +199,18 @@ class FnImp:
             self.fconsts.append(nm)
         return nm
 
+    def sgf(self, attr):
+        """name of a subgraph-level field (prefixed when a per-node field has the same name, e.g. `density`)."""
+        return f"sg_{attr}" if attr in self.used_fields else attr
+
     def as_float(self, term, ty, node, src=None):
         if ty == FLOAT:
             return term
         if ty == INT and isinstance(src, ast.Constant) and isinstance(src.value, int) and not isinstance(src.value, bool):
             return self.float_const(float(src.value))      # an int literal stored where a float lives
+        if ty == INT:
+            self.uses.add("fo")
+            return f"(fo.ofInt {term})"                    # an int value stored where a float lives
         self.fail(node, f"{ty} where a float is needed")
 
     def as_int(self, term, ty, node):
@@ -237,6 +244,8 @@ class FnImp:
                     return "FLOAT_MAX", FLOAT
                 if isinstance(v, int):
                     return f"({v} : Int)", INT
+                if isinstance(v, float):
+                    return self.float_const(v), FLOAT
                 self.fail(e, f"constant {e.attr}")
             s = self.sg_of(e.value)
             if s and e.attr == "n_nodes":
@@ -246,7 +255,7 @@ class FnImp:
             if s and self.sg_props is not None and self.sg_props.types.get(e.attr) in (INT, FLOAT):
                 if e.attr not in self.used_sg_fields:
                     self.used_sg_fields.append(e.attr)
-                return f"{s}.{e.attr}", self.sg_props.types[e.attr]
+                return f"{s}.{self.sgf(e.attr)}", self.sg_props.types[e.attr]
             nr = self.node_ref(e.value)
             if nr:
                 s, ie = nr
@@ -291,6 +300,17 @@ class FnImp:
         if isinstance(e, ast.BinOp):
             a, ta = self.expr(e.left, lines, in_branch)
             b, tb = self.expr(e.right, lines, in_branch)
+            if ta == INT_OR_BOOL:
+                a, ta = self.as_int(a, ta, e), INT
+            if tb == INT_OR_BOOL:
+                b, tb = self.as_int(b, tb, e), INT
+            fops = {ast.Add: "add", ast.Sub: "sub", ast.Mult: "mul", ast.Div: "div"}
+            if (FLOAT in (ta, tb) or isinstance(e.op, ast.Div)) and type(e.op) in fops and {ta, tb} <= {INT, FLOAT}:
+                # float arithmetic (ints are converted first, as Python does): an operation of `fo`, uninterpreted
+                self.uses.add("fo")
+                fa = a if ta == FLOAT else f"(fo.ofInt {a})"
+                fb_ = b if tb == FLOAT else f"(fo.ofInt {b})"
+                return f"(fo.{fops[type(e.op)]} {fa} {fb_})", FLOAT
             ops = {ast.Add: "+", ast.Sub: "-", ast.Mult: "*"}
             if type(e.op) not in ops:
                 self.fail(e, "binary operator")
@@ -315,8 +335,10 @@ class FnImp:
             if tb == INT_OR_BOOL:
                 b, tb = self.as_int(b, tb, e), INT
             if {ta, tb} == {INT, FLOAT}:
-                # an int literal compared with a cost (e.g. `h.cost[i] = 0`): not used by the sources
-                self.fail(e, "comparison of an int with a float")
+                if ta == INT:
+                    a, ta = self.as_float(a, ta, e, e.left), FLOAT
+                else:
+                    b, tb = self.as_float(b, tb, e, e.comparators[0]), FLOAT
             if ta != tb or ta not in (INT, FLOAT):
                 self.fail(e, f"comparison of {ta} with {tb}")
             ops = {ast.Eq: "=", ast.NotEq: "≠", ast.Lt: "<", ast.LtE: "≤", ast.Gt: ">", ast.GtE: "≥"}
@@ -356,6 +378,12 @@ class FnImp:
                 if ta != FLOAT or tb != FLOAT:
                     self.fail(e, f"{fs} on {ta}, {tb}")
                 return f"({'max' if fs == 'np.maximum' else 'min'} {a} {b})", FLOAT
+            if fs == "np.exp" and len(e.args) == 1 and not e.keywords:
+                a, ta = self.expr(e.args[0], lines, in_branch)
+                if ta != FLOAT:
+                    self.fail(e, f"np.exp of {ta}")
+                self.uses.add("fo")
+                return f"(fo.exp {a})", FLOAT
             if fs == "int" and len(e.args) == 1 and not e.keywords:
                 a, ta = self.expr(e.args[0], lines, in_branch)
                 return self.as_int(a, ta, e), INT
@@ -457,9 +485,12 @@ class FnImp:
         ra, rb = self.node_ref(A1), self.node_ref(B1)
         if not (ra and rb):
             self.fail(s, "arc-weight lookup on something other than subgraph nodes")
-        if ra[0] != "sg":
-            self.fail(s, "first node of the arc-weight lookup is not a training node")
-        kind = "W" if rb[0] == "sg" else "WQ"
+        if ra[0] == "sg":
+            kind = "W" if rb[0] == "sg" else "WQ"
+        elif rb[0] == "sg":
+            kind = "QW"        # d(query, training): the query comes FIRST
+        else:
+            self.fail(s, "arc-weight lookup between two non-training nodes")
         return a1.targets[0], kind, ra[1], rb[1]
 
     def assigned(self, stmts):
@@ -511,6 +542,8 @@ class FnImp:
         return names[0] if len(names) == 1 else "(" + ", ".join(names) + ")"
 
     def lty(self, t):
+        if isinstance(t, str) and t.startswith("tuple:"):
+            return "(" + " × ".join(self.lty(x) for x in t[6:].split(",")) + ")"
         return self.struct if t == SGT else LEAN_TY2[t]
 
     def sigma(self, names):
@@ -551,7 +584,7 @@ class FnImp:
                 val = self.as_float(val, tv, node, getattr(node, "value", None))
                 if target.attr not in self.used_sg_fields:
                     self.used_sg_fields.append(target.attr)
-                lines.append(f"let {s} := {{ {s} with {target.attr} := {val} }}")
+                lines.append(f"let {s} := {{ {s} with {self.sgf(target.attr)} := {val} }}")
                 return
             if s and self.sg_props is not None and self.sg_props.types.get(target.attr) == INT:
                 val = self.as_int(val, tv, node)
@@ -606,6 +639,11 @@ class FnImp:
             if isinstance(s, ast.Return):
                 if tail[0] != "fn" or k != len(stmts) - 1 or s.value is None:
                     self.fail(s, "return other than a final `return <value>`")
+                if isinstance(s.value, ast.Tuple):
+                    parts = [self.expr(x, lines) for x in s.value.elts]
+                    self.ret_val = "(" + ", ".join(v for v, _ in parts) + ")"
+                    self.ret_ty = "tuple:" + ",".join(t for _, t in parts)
+                    continue
                 v, tv = self.expr(s.value, lines)
                 self.ret_val, self.ret_ty = v, tv
                 continue
@@ -715,7 +753,7 @@ class FnImp:
                     lines.append(f"let {t} ← Py.setIdx {sgn}.{tg.attr} {self.as_int(i, ti, s)} (#[] : Array Int)")
                     lines.append(f"let {sgn} := {{ {sgn} with {tg.attr} := {t} }}")
                     continue
-                if isinstance(tg, ast.Name) and isinstance(s.value, ast.Call) and ast.unparse(s.value.func) == "Subgraph":
+                if isinstance(tg, ast.Name) and isinstance(s.value, ast.Call) and ast.unparse(s.value.func) in ("Subgraph", "KNNSubgraph"):
                     nm = tg.id + "0"
                     lines.append(f"let {tg.id} := {nm}")
                     env[tg.id] = SGT
@@ -765,6 +803,18 @@ class FnImp:
                 a, ta = self.expr(load, lines)
                 b, tb = self.expr(s.value, lines)
                 self.store(s.target, f"({a} {ops[type(s.op)]} {self.as_int(b, tb, s)})", INT, lines, s)
+                continue
+            if isinstance(s, ast.AugAssign) and (
+                    (isinstance(s.target, ast.Name) and env.get(s.target.id) == FLOAT)
+                    or (isinstance(s.target, ast.Subscript) and isinstance(s.target.value, ast.Name)
+                        and env.get(s.target.value.id) == LFLOAT)):
+                # x op= e on a float  ==  x = x op e
+                load = ast.parse(ast.unparse(s.target), mode="eval").body
+                bin_ = ast.BinOp(left=load, op=s.op, right=s.value)
+                for n_ in ast.walk(bin_):
+                    ast.copy_location(n_, s)
+                v, tv = self.expr(bin_, lines)
+                self.store(s.target, v, tv, lines, s)
                 continue
             if isinstance(s, ast.AugAssign) and isinstance(s.target, ast.Name):
                 ops = {ast.Add: "+", ast.Sub: "-", ast.Mult: "*"}
@@ -998,7 +1048,7 @@ class FnImp:
                     and isinstance(n.targets[0], ast.Name):
                 self.env_all[n.targets[0].id] = HEAP
         for n in ast.walk(fn):
-            if isinstance(n, ast.Assign) and isinstance(n.value, ast.Call) and ast.unparse(n.value.func) == "Subgraph" \
+            if isinstance(n, ast.Assign) and isinstance(n.value, ast.Call) and ast.unparse(n.value.func) in ("Subgraph", "KNNSubgraph") \
                     and isinstance(n.targets[0], ast.Name):
                 self.env_all[n.targets[0].id] = SGT
         self.extra_sg = []
@@ -1039,6 +1089,10 @@ class FnImp:
             sig.append("(W : Int → Int → Option Int)")
         if "WQ" in self.uses:
             sig.append("(WQ : Int → Int → Option Int)")
+        if "QW" in self.uses:
+            sig.append("(QW : Int → Int → Option Int)")
+        if "fo" in self.uses:
+            sig.append("(fo : Py.FOps)")
         if "FLOAT_MAX" in self.uses:
             sig.append("(FLOAT_MAX : Int)")
         for nm in self.fconsts:
@@ -1173,6 +1227,89 @@ def translate_arcs(repo, gen, consts, write):
         body = _stub(ex)
         err = str(ex)
     write(os.path.join(gen, "ArcsImp.lean"), "\n".join(head + body + ["end Opf.Gen.ArcsImp"]) + "\n")
+    return err
+
+
+def translate_density(repo, gen, consts, write):
+    """Gen/PdfImp.lean (calculate_pdf), Gen/CutImp.lean (_normalized_cut): scalar loops with float arithmetic; the
+    arithmetic operations are the uninterpreted `fo : Py.FOps`."""
+    errs = []
+
+    def emit(fname, src, ns, body_fn):
+        head = [f"/- GENERATED by tools/translate_fn.py from /repo/{src} — do not edit. -/",
+                "import OpfVerif.Model.PyPrelude", "set_option linter.unusedVariables false",
+                f"namespace Opf.Gen.{ns}", "open Opf Opf.Gen", ""]
+        try:
+            body = body_fn()
+        except Untranslatable as ex:
+            body = _stub(ex)
+            errs.append(str(ex))
+        write(os.path.join(gen, fname), "\n".join(head + body + [f"end Opf.Gen.{ns}"]) + "\n")
+
+    def mk(struct, fields, sgf, base):
+        heap = Imp(os.path.join(repo, "opfython/core/heap.py"), "Heap", consts, rel="opfython/core/heap.py")
+        t = FnImp(repo, consts, heap, NodeFields(repo, consts))
+        t.struct = struct
+        t.sg_props = NodeFields(repo, consts, rel="opfython/subgraphs/knn.py", clsname="KNNSubgraph")
+        t.used_fields = list(fields)
+        t.used_sg_fields = list(sgf)
+        t.fixed_fields = True
+        t.tmp = base
+        return t
+
+    def struct_lines(t, doc):
+        st = [f"/-- {doc} -/", f"structure {t.struct} where", "  n_nodes : Int", "  trained : Bool", "  idx_nodes : Array Int"]
+        st += [f"  {t.sgf(f)} : Int" for f in t.used_sg_fields]
+        st += [(f"  {f} : Array (Array Int)" if t.nodes.types.get(f) == LINT else f"  {f} : Array Int") for f in t.used_fields]
+        return st + ["deriving Inhabited, Repr", ""]
+
+    def pdf():
+        t = mk("PSG", ["adjacency", "density", "cost"], ["density", "constant", "min_density", "max_density"], 4000)
+        fns = t.function("opfython/subgraphs/knn.py", "KNNSubgraph", "calculate_pdf", "calculate_pdf", {"n_neighbours": INT},
+                         local_arrays={"pdf": LFLOAT})
+        return struct_lines(t, "a `KNNSubgraph` flattened to what `calculate_pdf` touches; NOTE the subgraph-level bound "
+                               "`KNNSubgraph.density` and the per-node `Node.density` are different fields: the former is `sg_density`") + fns
+    emit("PdfImp.lean", "opfython/subgraphs/knn.py (calculate_pdf)", "PdfImp", pdf)
+
+    def cut():
+        t = mk("CSG", ["adjacency", "n_plateaus", "cluster_label"], ["n_clusters"], 4200)
+        fns = t.function("opfython/models/unsupervised.py", "UnsupervisedOPF", "_normalized_cut", "normalized_cut", {"n_neighbours": INT},
+                         local_arrays={"internal_cluster": LFLOAT, "external_cluster": LFLOAT})
+        return struct_lines(t, "the unsupervised model's subgraph flattened to what `_normalized_cut` reads") + fns
+    emit("CutImp.lean", "opfython/models/unsupervised.py (_normalized_cut)", "CutImp", cut)
+    return "; ".join(errs) if errs else None
+
+
+def translate_knnpred(repo, gen, consts, write):
+    """Gen/KnnPredImp.lean: `KNNSupervisedOPF.predict` and `UnsupervisedOPF.predict` (k-nearest scan over ALL training
+    samples, query density with uninterpreted float operations, arg-max of min(cost, density))."""
+    head = ["/- GENERATED by tools/translate_fn.py from /repo/opfython/models/knn_supervised.py and",
+            "   /repo/opfython/models/unsupervised.py (`predict`) — do not edit. -/",
+            "import OpfVerif.Model.PyPrelude", "set_option linter.unusedVariables false",
+            "namespace Opf.Gen.KnnPredImp", "open Opf Opf.Gen", ""]
+    try:
+        heap = Imp(os.path.join(repo, "opfython/core/heap.py"), "Heap", consts, rel="opfython/core/heap.py")
+        t = FnImp(repo, consts, heap, NodeFields(repo, consts))
+        t.struct = "QSG"
+        t.sg_props = NodeFields(repo, consts, rel="opfython/subgraphs/knn.py", clsname="KNNSubgraph")
+        t.used_fields = ["cost", "predicted_label", "cluster_label"]
+        t.used_sg_fields = ["best_k", "constant", "min_density", "max_density"]
+        t.fixed_fields = True
+        t.tmp = 5000
+        la = {"distances": LFLOAT, "neighbours_idx": LINT}
+        fns = t.function("opfython/models/knn_supervised.py", "KNNSupervisedOPF", "predict", "knn_predict", {}, local_arrays=la)
+        t.tmp = 5200
+        fns += t.function("opfython/models/unsupervised.py", "UnsupervisedOPF", "predict", "uns_predict", {}, local_arrays=la)
+        st = ["/-- a `KNNSubgraph` flattened to what the two `predict` methods read (training side) and write (query side). -/",
+              "structure QSG where", "  n_nodes : Int", "  trained : Bool", "  idx_nodes : Array Int"]
+        st += [f"  {t.sgf(f)} : Int" for f in t.used_sg_fields]
+        st += [f"  {f} : Array Int" for f in t.used_fields] + ["deriving Inhabited, Repr", ""]
+        body = st + fns
+        err = None
+    except Untranslatable as ex:
+        body = _stub(ex)
+        err = str(ex)
+    write(os.path.join(gen, "KnnPredImp.lean"), "\n".join(head + body + ["end Opf.Gen.KnnPredImp"]) + "\n")
     return err
 
 
